@@ -37,6 +37,16 @@ def search(ctx, spec, failure):
     """Look for a concrete failing input of a refuted Verus obligation by enumerating a small grid through the real
     code (a search for a counterexample to report — not evidence of correctness)."""
     import itertools
+    if spec.get("kind") == "api-self":
+        # the replay program enumerates by itself and prints the witness it found
+        if run(ctx, {"kind": "api", "name": spec["name"]}, {}):
+            m = re.search(r"QX-WITNESS (\{.*\})", getattr(ctx, "last_replay_output", ""))
+            if m:
+                w = json.loads(m.group(1))
+                failure["replay"] = {"kind": "api", "name": spec["replay"]}
+                failure["replay_output"] = ctx.last_replay_output
+                return w
+        return None
     if spec.get("kind") != "api-enum":
         return None
     keys = sorted(spec["grid"].keys())
